@@ -223,8 +223,21 @@ def symbol_table(ctx, py: PyRepo):
     others = [(m, f, k) for m, f, k, _n in writes if k not in ('rebind', 'item')]
     ctx.ob('one-symbol-table', 'never-shrinks', not others, f'the symbol table is modified by {others}', where)
     items = [(m, f) for m, f, k, _n in writes if k == 'item']
-    ctx.ob('one-symbol-table', 'written-only-by-symbol', set(items) == {('serializing_interpreter', 'symbol')},
-           f'symbol ids are assigned in {sorted(set(items))}', where)
+    # `symbol` itself, or a private helper of the serializer that nothing but `symbol` (or such a helper) calls
+    allowed = {'symbol'}
+    callers: dict[str, set] = {}
+    for mname, qn, f, _ci in py.all_functions():
+        for n in ast.walk(f):
+            if isinstance(n, ast.Attribute) and n.attr.startswith('_') and n.attr in ci.methods:
+                callers.setdefault(n.attr, set()).add((mname, qn.split('.')[-1]))
+    for _round in range(3):
+        for h, cs in callers.items():
+            if cs and all(m == 'serializing_interpreter' and f in allowed for m, f in cs):
+                allowed.add(h)
+    ctx.ob('one-symbol-table', 'written-only-by-symbol',
+           bool(items) and all(m == 'serializing_interpreter' and f in allowed for m, f in items)
+           and any(f == 'symbol' or f in allowed for _m, f in items),
+           f'symbol ids are assigned in {sorted(set(items))}: only `symbol` (or a private helper only it uses) may number symbols', where)
     # ids are len(table), assigned only when the name is new: on every path of `symbol` the id written is the table entry of the
     # name, and an entry is stored only under `name not in table` (or by setdefault), with the value len(table)
     fn = ci.methods.get('symbol')
@@ -245,6 +258,7 @@ def symbol_table(ctx, py: PyRepo):
             elif len(ids) == 1 and ids[0] == ('sub', T, NAME) and known == [True]:
                 good = True
             elif len(ids) == 1 and ids[0] == ('sub', T, NAME) and known == [False]:
+                # the new entry is stored with the value len(table) (and is what is written: read back or kept in a local)
                 good = any(e.kind == 'setitem' and e.value == (T, NAME, LEN) for e in rec.get('events', []))
             ok = ok and good
     ctx.ob('one-symbol-table', 'fresh-id-is-len', ok,
@@ -283,6 +297,14 @@ def bounded_writes(ctx, py: PyRepo):
                         and isinstance(arg.args[0], ast.Name) and fn.args.vararg is not None and arg.args[0].id == fn.args.vararg.arg:
                     is_bytes = True
                     emit_helpers.add(mname)
+                # bytes([<parameter>, *<the *args parameter>]): likewise a display of the caller's arguments
+                if is_bytes and fn.args.vararg is not None and isinstance(arg.args[0], (ast.List, ast.Tuple)):
+                    params_ = {a.arg for a in fn.args.args[1:]}
+                    elts_ = arg.args[0].elts
+                    if elts_ and all((isinstance(x, ast.Name) and x.id in params_)
+                                     or (isinstance(x, ast.Starred) and isinstance(x.value, ast.Name) and x.value.id == fn.args.vararg.arg)
+                                     for x in elts_) and any(isinstance(x, ast.Starred) for x in elts_):
+                        emit_helpers.add(mname)
                 # a local that holds bytes([...]) is the same idiom
                 if isinstance(arg, ast.Name):
                     defs = [a for a in ast.walk(fn) if isinstance(a, ast.Assign) and isinstance(a.targets[0], ast.Name) and a.targets[0].id == arg.id]
